@@ -2,6 +2,7 @@ package rules
 
 import (
 	"fmt"
+	"go/token"
 	"sort"
 
 	"golang.org/x/tools/go/ssa"
@@ -44,6 +45,8 @@ type lbAnalysis struct {
 	cyclic map[int]bool
 	cost   map[*ssa.Function]lbCost
 	done   map[*ssa.Function]bool
+	// loopMemo: classification of the read calls that sit in CFG loops
+	loopMemo map[*ssa.Function]*lbLoopInfo
 }
 
 type lbCall struct {
@@ -237,7 +240,7 @@ func (A *lbAnalysis) callWeight(fn *ssa.Function, lc lbCall) lbCost {
 		case !A.mayLd[g]:
 		case A.scc[g] == A.scc[fn] && A.recursive(fn):
 			x.R = 1
-		case A.recursive(g):
+		case A.isDescent(g):
 			x.D = 1
 		default:
 			gc := A.costOf(g)
@@ -316,6 +319,10 @@ func (A *lbAnalysis) costOf(fn *ssa.Function) lbCost {
 	if len(fn.Blocks) > 0 && f.active(fn.Blocks[0]) {
 		res = dfs(fn.Blocks[0])
 	}
+	if !A.recursive(fn) && A.mayLd[fn] && len(A.loopInfo(fn).ok) > 0 {
+		// a descent loop: each iteration is one level, like one recursive call
+		res.R = 1
+	}
 	A.cost[fn] = res
 	return res
 }
@@ -336,7 +343,7 @@ func runLOADBOUND(c *Ctx) {
 		c.Undecided(nil, "-", "Mast.debug may be set", "cannot prune debug-print paths: "+pr.debugWhy+"; the bound would have to hold with full-tree dumps enabled")
 	}
 	A := &lbAnalysis{c: c, pr: pr, res: newLpResolver(c), exempt: map[*ssa.Function]bool{}, calls: map[*ssa.Function][]lbCall{},
-		mayLd: map[*ssa.Function]bool{}, scc: map[*ssa.Function]int{}, cyclic: map[int]bool{}, cost: map[*ssa.Function]lbCost{}}
+		mayLd: map[*ssa.Function]bool{}, scc: map[*ssa.Function]int{}, cyclic: map[int]bool{}, cost: map[*ssa.Function]lbCost{}, loopMemo: map[*ssa.Function]*lbLoopInfo{}}
 	// the property exempts height changes: table of the two height-change functions
 	for _, n := range []string{"(*Mast).grow", "(*Mast).shrink"} {
 		if fn := c.MustFunc(n); fn != nil {
@@ -398,12 +405,17 @@ func runLOADBOUND(c *Ctx) {
 					continue
 				}
 				what := fmt.Sprintf("read call %s in %s (from %s)", name, ir.FuncName(fn), e.name)
-				if f.inCycle(lc.ci.Block()) {
+				if why, ok := A.loopInfo(fn).ok[lc.ci]; ok && f.inCycle(lc.ci.Block()) {
+					c.OK(P.InstrPos(lc.ci), what, why, false)
+				} else if f.inCycle(lc.ci.Block()) {
 					key := ir.FuncName(fn) + "|" + name
 					construct := "read in loop: call " + name
 					chain := lbChain(prev, fn)
 					msg := fmt.Sprintf("%s calls %s inside a loop: the number of nodes read grows with the width of a node or the size of the tree; reached from %s via %s",
 						ir.FuncName(fn), name, e.name, fmtChain(chain))
+					if why := A.loopInfo(fn).reject[lc.ci]; why != "" {
+						msg += "; not a one-level-per-iteration descent loop: " + why
+					}
 					if !reportedLoop[key] {
 						reportedLoop[key] = true
 					}
@@ -448,7 +460,7 @@ func runLOADBOUND(c *Ctx) {
 
 		// (b) per-invocation bounds of the recursive functions reached
 		for _, fn := range fns {
-			if !A.mayLd[fn] || !A.recursive(fn) {
+			if !A.mayLd[fn] || !A.isDescent(fn) {
 				continue
 			}
 			k := A.costOf(fn)
@@ -501,7 +513,7 @@ func runLOADBOUND(c *Ctx) {
 			// name the descents
 			var names []string
 			for _, fn := range fns {
-				if A.mayLd[fn] && A.recursive(fn) {
+				if A.mayLd[fn] && A.isDescent(fn) {
 					names = append(names, ir.FuncName(fn))
 				}
 			}
@@ -523,4 +535,432 @@ func runLOADBOUND(c *Ctx) {
 			c.OK(P.Pos(entry.Pos()), what, "within bounds on every path", false)
 		}
 	}
+}
+
+// ---- descent loops ---------------------------------------------------------------
+//
+// The iterative form of the one-child-per-level recursion:
+//
+//	for { …; if cur == target { return }; child := load(…node…); cur--; node = child }
+//
+// A CFG loop of fn is a descent loop when (1) it contains exactly one call that
+// may read nodes, that call reads at most one node, starts no other descent,
+// and runs at most once per iteration; (2) the node it returns becomes the
+// loop's current node on every back edge, and the call reads from the current
+// node; (3) every iteration that goes round steps a counter by exactly one, and
+// a test of that counter, executed before the read in every iteration, leaves
+// the loop. Such a loop reads one node per iteration and — under the same
+// assumption as for the recursive form, that the counter measures the levels
+// left — runs at most height times: the function is then accounted as a
+// descent with one read and one "recursive call" per level.
+
+type lbLoopInfo struct {
+	ok     map[ssa.CallInstruction]string // accepted read calls -> why
+	reject map[ssa.CallInstruction]string // read calls in loops that are not descent loops -> why not
+}
+
+func lbMayLoadCall(A *lbAnalysis, lc lbCall) bool {
+	if lc.ext == "Persist.Load" {
+		return true
+	}
+	for _, g := range lc.callees {
+		if A.mayLd[g] {
+			return true
+		}
+	}
+	return false
+}
+
+// lbSCC returns the cyclic strongly connected components of fn's active CFG.
+func lbSCC(f *lpFunc) [][]*ssa.BasicBlock {
+	index := map[*ssa.BasicBlock]int{}
+	low := map[*ssa.BasicBlock]int{}
+	on := map[*ssa.BasicBlock]bool{}
+	var stack []*ssa.BasicBlock
+	var out [][]*ssa.BasicBlock
+	n := 0
+	var strong func(v *ssa.BasicBlock)
+	strong = func(v *ssa.BasicBlock) {
+		n++
+		index[v], low[v] = n, n
+		stack = append(stack, v)
+		on[v] = true
+		self := false
+		for _, w := range f.succ[v] {
+			if !f.active(w) {
+				continue
+			}
+			if w == v {
+				self = true
+			}
+			if index[w] == 0 {
+				strong(w)
+				if low[w] < low[v] {
+					low[v] = low[w]
+				}
+			} else if on[w] && index[w] < low[v] {
+				low[v] = index[w]
+			}
+		}
+		if low[v] == index[v] {
+			var comp []*ssa.BasicBlock
+			for {
+				w := stack[len(stack)-1]
+				stack = stack[:len(stack)-1]
+				on[w] = false
+				comp = append(comp, w)
+				if w == v {
+					break
+				}
+			}
+			if len(comp) > 1 || self {
+				out = append(out, comp)
+			}
+		}
+	}
+	for _, b := range f.fn.Blocks {
+		if f.active(b) && index[b] == 0 {
+			strong(b)
+		}
+	}
+	return out
+}
+
+// lbDerives: v is cur or is read out of the node cur points to.
+func lbDerives(v ssa.Value, cur ssa.Value, d int) bool {
+	if v == cur {
+		return true
+	}
+	if d > 8 {
+		return false
+	}
+	switch x := v.(type) {
+	case *ssa.UnOp:
+		return lbDerives(x.X, cur, d+1)
+	case *ssa.FieldAddr:
+		return lbDerives(x.X, cur, d+1)
+	case *ssa.IndexAddr:
+		return lbDerives(x.X, cur, d+1)
+	case *ssa.MakeInterface:
+		return lbDerives(x.X, cur, d+1)
+	case *ssa.ChangeInterface:
+		return lbDerives(x.X, cur, d+1)
+	}
+	return false
+}
+
+func lbConstOne(v ssa.Value) bool {
+	n, ok := lmConstInt(v)
+	return ok && n == 1
+}
+
+// loopInfo classifies the read calls that sit in CFG loops of fn.
+func (A *lbAnalysis) loopInfo(fn *ssa.Function) *lbLoopInfo {
+	if li, ok := A.loopMemo[fn]; ok {
+		return li
+	}
+	li := &lbLoopInfo{ok: map[ssa.CallInstruction]string{}, reject: map[ssa.CallInstruction]string{}}
+	A.loopMemo[fn] = li
+	f := A.pr.of(fn)
+	for _, comp := range lbSCC(f) {
+		in := map[*ssa.BasicBlock]bool{}
+		for _, b := range comp {
+			in[b] = true
+		}
+		var reads []lbCall
+		for _, lc := range A.callsOf(fn) {
+			if in[lc.ci.Block()] && lbMayLoadCall(A, lc) {
+				reads = append(reads, lc)
+			}
+		}
+		if len(reads) == 0 {
+			continue
+		}
+		why := A.descentLoop(fn, f, comp, in, reads)
+		for _, lc := range reads {
+			if why == "" {
+				li.ok[lc.ci] = "descent loop: the only read of the loop, at most one node per iteration; its result becomes the current node on every back edge; every iteration steps a counter that an exit test checks before the read"
+			} else {
+				li.reject[lc.ci] = why
+			}
+		}
+	}
+	return li
+}
+
+// descentLoop returns "" if the loop is a descent loop, else why it is not.
+func (A *lbAnalysis) descentLoop(fn *ssa.Function, f *lpFunc, comp []*ssa.BasicBlock, in map[*ssa.BasicBlock]bool, reads []lbCall) string {
+	// (1) exactly one read call, one node at most, no descent, once per iteration
+	if len(reads) != 1 {
+		return fmt.Sprintf("the loop contains %d calls that may read nodes", len(reads))
+	}
+	rd := reads[0]
+	call, ok := rd.ci.(*ssa.Call)
+	if !ok {
+		return "the read is a go/defer statement"
+	}
+	var w lbCost
+	if rd.ext == "Persist.Load" {
+		w.L = 1
+	}
+	for _, g := range rd.callees {
+		if !A.mayLd[g] {
+			continue
+		}
+		if A.scc[g] == A.scc[fn] && A.recursive(fn) {
+			return "the read call is a recursive call"
+		}
+		if A.isDescent(g) {
+			return "the call in the loop starts a descent of its own (" + ir.FuncName(g) + ")"
+		}
+		gc := A.costOf(g)
+		if gc.D > 0 {
+			return "the call in the loop starts a descent of its own (inside " + ir.FuncName(g) + ")"
+		}
+		if gc.L > w.L {
+			w.L = gc.L
+		}
+	}
+	if w.L > 1 {
+		return fmt.Sprintf("one iteration can read %d nodes", w.L)
+	}
+	var hdr *ssa.BasicBlock
+	for _, b := range comp {
+		for _, p := range b.Preds {
+			if !in[p] && f.active(p) {
+				if hdr != nil && hdr != b {
+					return "the loop has several entry blocks"
+				}
+				hdr = b
+			}
+		}
+		if b == fn.Blocks[0] {
+			if hdr != nil && hdr != b {
+				return "the loop has several entry blocks"
+			}
+			hdr = b
+		}
+	}
+	if hdr == nil {
+		return "the loop has no entry block"
+	}
+	// once per iteration: without the header the read's block is on no cycle
+	{
+		seen := map[*ssa.BasicBlock]bool{}
+		work := []*ssa.BasicBlock{}
+		for _, s := range f.succ[call.Block()] {
+			if in[s] && s != hdr && f.active(s) {
+				work = append(work, s)
+			}
+		}
+		for len(work) > 0 {
+			x := work[len(work)-1]
+			work = work[:len(work)-1]
+			if seen[x] {
+				continue
+			}
+			seen[x] = true
+			for _, s := range f.succ[x] {
+				if in[s] && s != hdr && f.active(s) {
+					work = append(work, s)
+				}
+			}
+		}
+		if seen[call.Block()] {
+			return "the read sits in an inner loop: it can run several times per iteration"
+		}
+	}
+	// (2) the loaded node becomes the current node on every back edge
+	var loaded []ssa.Value
+	if isNodePtr(call.Type()) {
+		loaded = append(loaded, call)
+	}
+	if call.Referrers() != nil {
+		for _, r := range *call.Referrers() {
+			if ex, ok := r.(*ssa.Extract); ok && isNodePtr(ex.Type()) {
+				loaded = append(loaded, ex)
+			}
+		}
+	}
+	var latches []*ssa.BasicBlock
+	for _, p := range hdr.Preds {
+		if in[p] && f.active(p) {
+			latches = append(latches, p)
+		}
+	}
+	var cur *ssa.Phi
+	for _, ins := range hdr.Instrs {
+		phi, ok := ins.(*ssa.Phi)
+		if !ok {
+			break
+		}
+		if !isNodePtr(phi.Type()) {
+			continue
+		}
+		all := true
+		for i, e := range phi.Edges {
+			if !in[hdr.Preds[i]] || !f.active(hdr.Preds[i]) {
+				continue
+			}
+			is := false
+			for _, l := range loaded {
+				if e == l {
+					is = true
+				}
+			}
+			if !is {
+				all = false
+			}
+		}
+		if all && len(latches) > 0 {
+			cur = phi
+			break
+		}
+	}
+	if cur == nil {
+		return "the node that was read does not become the loop's current node on every back edge (the next iteration may read the same child again, or reads are made for each entry of one node)"
+	}
+	fromCur := false
+	for _, a := range call.Call.Args {
+		if lbDerives(a, cur, 0) {
+			fromCur = true
+		}
+	}
+	if !fromCur {
+		return "the read does not start from the loop's current node"
+	}
+	// (3) a counter stepped by one in every iteration, tested before the read
+	domLatches := func(b *ssa.BasicBlock) bool {
+		for _, l := range latches {
+			if b != l && !b.Dominates(l) {
+				return false
+			}
+		}
+		return true
+	}
+	// counter candidates: symbolic address (memory) or phi (register)
+	type counter struct {
+		sym string   // "*"+address for memory counters
+		phi *ssa.Phi // register counters
+	}
+	var counters []counter
+	for _, b := range comp {
+		for _, ins := range b.Instrs {
+			st, ok := ins.(*ssa.Store)
+			if !ok || !domLatches(b) {
+				continue
+			}
+			bin, ok := st.Val.(*ssa.BinOp)
+			if !ok || (bin.Op != token.ADD && bin.Op != token.SUB) || !lbConstOne(bin.Y) {
+				continue
+			}
+			ld, ok := bin.X.(*ssa.UnOp)
+			if !ok || ld.Op != token.MUL || ir.Sym(ld.X) != ir.Sym(st.Addr) {
+				continue
+			}
+			// no other store to the counter in the loop
+			only := true
+			for _, bb := range comp {
+				for _, x := range bb.Instrs {
+					if o, ok := x.(*ssa.Store); ok && o != st && ir.Sym(o.Addr) == ir.Sym(st.Addr) {
+						only = false
+					}
+				}
+			}
+			if only {
+				counters = append(counters, counter{sym: "*" + ir.Sym(st.Addr)})
+			}
+		}
+	}
+	for _, ins := range hdr.Instrs {
+		phi, ok := ins.(*ssa.Phi)
+		if !ok {
+			break
+		}
+		if !lmIsInt(phi.Type()) {
+			continue
+		}
+		all := true
+		for i, e := range phi.Edges {
+			if !in[hdr.Preds[i]] || !f.active(hdr.Preds[i]) {
+				continue
+			}
+			if n, ok := lmPhiPlus(e, phi); !ok || (n != 1 && n != -1) {
+				all = false
+			}
+		}
+		if all {
+			counters = append(counters, counter{phi: phi})
+		}
+	}
+	if len(counters) == 0 {
+		return "no counter is stepped by one in every iteration that reads (nothing bounds the number of iterations by the height)"
+	}
+	mentions := func(v ssa.Value, ct counter) bool {
+		v = ir.ResolveCell(v)
+		if ct.phi != nil {
+			if _, ok := lmPhiPlus(v, ct.phi); ok {
+				return true
+			}
+			return false
+		}
+		if b, ok := v.(*ssa.BinOp); ok && (b.Op == token.ADD || b.Op == token.SUB) {
+			if _, isC := lmConstInt(b.Y); isC {
+				v = b.X
+			}
+		}
+		for i := 0; i < 3; i++ {
+			if cv, ok := v.(*ssa.Convert); ok {
+				v = cv.X
+			}
+		}
+		return ir.Sym(v) == ct.sym
+	}
+	for _, ct := range counters {
+		for _, b := range comp {
+			if len(b.Instrs) == 0 {
+				continue
+			}
+			iff, ok := b.Instrs[len(b.Instrs)-1].(*ssa.If)
+			if !ok {
+				continue
+			}
+			leaves := false
+			for _, s := range b.Succs {
+				if !in[s] {
+					leaves = true
+				}
+			}
+			if !leaves || !(b == call.Block() || b.Dominates(call.Block())) {
+				continue
+			}
+			if b == call.Block() {
+				continue // the test follows the read in its block
+			}
+			cond := iff.Cond
+			for {
+				u, ok := cond.(*ssa.UnOp)
+				if !ok || u.Op != token.NOT {
+					break
+				}
+				cond = u.X
+			}
+			bin, ok := cond.(*ssa.BinOp)
+			if !ok || lpNegOp(bin.Op) == token.ILLEGAL {
+				continue
+			}
+			if mentions(bin.X, ct) || mentions(bin.Y, ct) {
+				return ""
+			}
+		}
+	}
+	return "a counter is stepped in every iteration, but no test of it that leaves the loop is executed before the read"
+}
+
+// isDescent: fn reads one level per recursive call or per loop iteration.
+func (A *lbAnalysis) isDescent(fn *ssa.Function) bool {
+	if A.recursive(fn) {
+		return true
+	}
+	return A.mayLd[fn] && len(A.loopInfo(fn).ok) > 0
 }
